@@ -8,10 +8,13 @@
        for newcomers are distinct empty seats of the table (draws_ok_op: the draw is an oracle argument of
        the model; the premise is evaluated on every observed operation by the correspondence run);
    (2) the all-or-nothing clause for every operation, with one exclusion that is a recorded finding
-       (F19, witness below) - hence the name _partial for that clause. *)
+       (F19, witness below) - hence the name _partial for that clause;
+   (3) an empty seat can always be taken (Proofs/C03_reuse.v; a counting argument: under the invariant there are
+       at most as many occupied seats as players);
+   (4) together: every operation outside F19 meets the whole decidable specification C03_ok. *)
 From Coq Require Import List ZArith Bool Arith.
 Import ListNotations.
-From PT Require Import Model.TableMem Spec.C03_spec Proofs.C03_proofs Proofs.C03_inv.
+From PT Require Import Model.TableMem Spec.C03_spec Proofs.C03_proofs Proofs.C03_inv Proofs.C03_reuse.
 Open Scope Z_scope.
 
 (* one operation: exclusivity and consistency survive it, whether it is accepted or refused *)
@@ -37,6 +40,23 @@ Example C03_draws_example :
   draws_ok_all t0 ops = true /\ length (t_players (run_ops t0 ops)) = 2%nat
   /\ draws_ok_op t0 (MReserve {| jp_id := 1; jp_chips := 100; jp_seat := -1 |} [7]) = false.
 Proof. vm_compute. repeat split; reflexivity. Qed.
+
+(* an empty seat - never used, or vacated - can be taken: such a reservation is never refused *)
+Theorem C03_empty_seat_can_be_taken : forall t o, seat_inv t = true -> must_succeed t o = true -> fst (mstep t o) = Ok.
+Proof. intros t o H M. exact (must_succeed_ok t o (seat_inv_Inv t H) M). Qed.
+Print Assumptions C03_empty_seat_can_be_taken.
+
+(* THE FULL STATEMENT for one operation (C03_ok is the decidable specification the monitor evaluates on every observed
+   transition), for every operation outside the recorded finding F19 (atomic_op) *)
+Theorem C03_step_meets_the_specification : forall t o r t',
+  seat_inv t = true -> draws_ok_op t o = true -> atomic_op t o -> mstep t o = (r, t') -> C03_ok t o r t' = true.
+Proof.
+  intros t o r t' H D A E. unfold C03_ok. rewrite (C03_invariant_preserved t o r t' H D E). cbn [andb].
+  destruct r; [reflexivity|]. rewrite (error_is_noop t o t' A E). cbn [andb].
+  destruct (must_succeed t o) eqn:M; [|reflexivity].
+  pose proof (must_succeed_ok t o (seat_inv_Inv t H) M) as K. rewrite E in K. discriminate.
+Qed.
+Print Assumptions C03_step_meets_the_specification.
 
 Theorem C03_error_is_noop_partial : forall t o t',
   atomic_op t o -> mstep t o = (Err, t') -> book_eqb t t' = true.
